@@ -27,15 +27,31 @@ func (Prop) Configs(tier string) []string {
 }
 
 func (Prop) Rule() string {
-	return "E3 on " + fmt.Sprint(len(allEPs())) + " entry-point bindings (exported functions of sm2, sm9, ecdh, smx509, pkcs, pkcs7, pkcs8, cfca, padding, cipher that parse, verify or decrypt caller-supplied bytes, " +
-		"plus the follow-up methods of every successfully parsed object: pkcs7 Verify*/Decrypt*/GetRecipients/DecryptUsingPSK, certificate CheckSignature/Verify/VerifyHostname, CSR/CRL CheckSignature, key accessors). " +
-		"Per entry point: all byte strings of length 0..2 (thorough: 0..3 for parsers flagged fast); per (entry point, seed): every 1-deviation mutant = each byte position x {00,01,7f,80,ff,b^01,b^80,b+1,b-1} " +
-		"(all 255 values for artefacts flagged small: signatures, raw points/keys, padded blocks), every truncation length, prefix drops, 5 extensions, and per TLV of the lenient DER tree: length +1/-1/0/indefinite/huge/non-minimal, BER indefinite+EOC, 17 tag swaps incl. high-tag form, " +
-		"delete/duplicate/swap/empty/wrap x3/NULL/600-byte INTEGER/unwrap, INTEGER and string content edits; PEM/base64 carried artefacts are mutated both at DER level (re-encoded) and at text level; " +
-		"nesting probes depth 100 and 10000 (definite, indefinite open, indefinite closed) in their own cases; thorough adds all 2-deviation substitution pairs within the first 24 bytes (whole artefact when <= 128 bytes; 24 bytes for the pairing-cost entry points). " +
-		"Cost parameters inside seeds (PBKDF2/PBES1 iteration count, scrypt N/r/p, key-length INTEGERs) are excluded from substitution. Inputs are handed over in buffers that end at a PROT_NONE page. " +
-		"Oracle: return (value or error); panic => violation keyed by entry point + innermost gmsm frame; worker death / watchdog => violation of the case in flight. " +
-		"distinct_nontrivial counts distinct (entry point, seed, mutation class, accepted/rejected) classes reached; distinct_outcomes counts (entry point, accepted/rejected/panicked)."
+	eps := allEPs()
+	nFast, nSeeds, nHostile := 0, 0, 0
+	for _, e := range eps {
+		if e.fast {
+			nFast++
+		}
+		for _, s := range e.seeds {
+			nSeeds++
+			if s.hostile {
+				nHostile++
+			}
+		}
+	}
+	return fmt.Sprintf("E3 on %d entry-point bindings (exported functions of sm2, sm9, ecdh, smx509, pkcs, pkcs7, pkcs8, cfca, padding, cipher that parse, verify or decrypt caller-supplied bytes, each bound to fixed valid non-hostile arguments), "+
+		"plus the follow-up methods of every successfully parsed object (pkcs7 Verify*/Decrypt*/DecryptAndVerify*/GetRecipients/DecryptUsingPSK/UnmarshalSignedAttribute, certificate CheckSignature/CheckSignatureFrom/Verify/VerifyHostname, CSR/CRL CheckSignature, key accessors and one use of a parsed public key), %d (entry point, seed) pairs. "+
+		"Per entry point: all byte strings of length 0..2 (length 0..1 for one binding that runs a pairing per call whatever the input); thorough tier: also all strings of length 3 for the %d bindings whose call on a 3-byte input costs under ~1 µs. "+
+		"Per (entry point, seed): the seed itself, then every 1-deviation mutant = each byte position x {00,01,7f,80,ff,b^01,b^80,b+1,b-1} (all 255 other values for artefacts flagged small - signatures, raw points and keys, padded blocks, AEAD and SM2/SM9 ciphertexts - except, in the quick tier, where every accepted mutant costs a pairing; thorough tier: all 255 values for every artefact <= 160 bytes), "+
+		"every truncation length, prefix drops 1/2/4, 5 extensions, and per TLV of the lenient DER tree: length +1/-1/0/indefinite/huge/non-minimal, BER indefinite+EOC, 17 tag swaps incl. high-tag form, delete/duplicate/swap-with-next/empty/wrap in SEQUENCE, OCTET STRING, [0]/NULL/600-byte INTEGER/unwrap, INTEGER and string content edits; "+
+		"PEM and base64 carried artefacts are mutated at DER level (re-encoded) and at text level; nesting probes of depth 100 and 10000 (definite, indefinite open, indefinite closed) each in a case of its own; "+
+		"thorough tier adds all 2-deviation substitution pairs from the 9-value set within the first 24 bytes (whole artefact when <= 128 bytes and no pairing is involved). "+
+		"%d of the seeds are 'authentic-hostile': produced by the library from adversarial parameters where the hostile size is protected by a MAC or by public-key encryption and therefore out of reach of byte mutation (SM9 ciphertext whose authenticated C2 is not block aligned, EnvelopedData carrying a 5-byte content key). "+
+		"Cost parameters of the key-derivation function inside seeds (PBKDF2/PBES1 iteration count and key length, scrypt N/r/p) are excluded from substitution. Every input is handed over in a buffer that ends at a PROT_NONE page with a canary in front. "+
+		"Oracle: the call returns (value or error); a panic is a violation keyed `<entry point>[>follow-up]/panic@<innermost gmsm frame>`; worker death (SIGSEGV past the guard page, stack exhaustion) and watchdog expiry are violations of the case in flight. "+
+		"distinct_nontrivial counts distinct (entry point, seed, mutation class, accepted/rejected) classes reached; distinct_outcomes counts (entry point, accepted/rejected/panicked); inputs_accepted/rejected/panicked are totals over all calls.",
+		len(eps), nSeeds, nFast, nHostile)
 }
 
 func (Prop) Assumptions() []string {
@@ -530,7 +546,6 @@ func runEP(c *engine.Ctx, e *epT) {
 		if K < 1 {
 			K = 1
 		}
-		allValues := e.small && !(quick && e.costly)
 		for k := 0; k < K; k++ {
 			k := k
 			kase(c, fmt.Sprintf("%s/%s/mut1/%d-of-%d", e.name, s.name, k, K), func(t *engine.T) {
@@ -539,6 +554,9 @@ func runEP(c *engine.Ctx, e *epT) {
 				if !ok {
 					return
 				}
+				// all 255 values per position: artefacts flagged small (quick: unless every accepted mutant costs a
+				// pairing), and in the thorough tier every artefact of at most 160 bytes.
+				allValues := (e.small && !(quick && e.costly)) || (!quick && len(seed) <= 160)
 				idx, n := 0, 0
 				mine := func() bool { i := idx; idx++; return i%K == k }
 				// the unmodified seed first (vacuity guard)
